@@ -29,14 +29,14 @@ BUDGET = {'quick': 900, 'thorough': 7200}
 CHUNK = {'quick': 4, 'thorough': 4}
 MANIFEST = {'engines': ['E1-enum', 'E2-explore'],
             'technique': 'stateless deviation-bounded exhaustive exploration of all trial histories of the real LRTDP vs exact optimum'}
-HEUR = ['bound', 'exact', 'exact+half', 'half_on_absorbing']
+HEUR = ['bound', 'exact', 'exact+half', 'half_on_absorbing', 'exact_on_even', 'exact_on_odd']
 MARGINS = [0.3, 1e-2]
 SLAB = ['int', 'rev', 'str', 'mix', 'tup', 'fd']
 ALAB = ['ab', 'rev', 'ab', 'mix', 'rev', 'fd']
 
 
 def bounds(tier):
-    return {'quick': {'n=2': 'deviation bound 3', 'n=3': 'deviation bound 2', 'max_points': 150, 'heuristics': 4,
+    return {'quick': {'n=2': 'deviation bound 3', 'n=3': 'deviation bound 2', 'max_points': 150, 'heuristics': 6,
                       'margins': MARGINS, 'randomize_action_order': 'rotating'},
             'thorough': {'n=2': 'deviation bound 4', 'n=3': 'deviation bound 3', 'max_points': 250}}[tier]
 
@@ -46,6 +46,7 @@ def spec_items(tier):
     inits2 = [((0, F(1)),), ((0, F(1, 2)), (1, F(1, 2))), ((1, F(1)),)]
     inits3 = [((0, F(1)),), ((1, F(1, 4)), (2, F(3, 4)))]
     yield from build.proper_mdps(2, [F(9, 10), F(1)], rb, inits2)
+    yield from (it for it in build.edge_mdps() if it[1] == 5)      # three-outcome fans
     if tier == 'quick':
         yield from build.proper_mdps(3, [F(1)], lambda g: [F(-1)], inits3, reduce_pairs=True,
                                      goal_opts=[(('a', ((2, F(1)),), F(0)),)])
@@ -69,6 +70,11 @@ def make_heuristic(kind, spec, V, mdp):
         return lambda s: float(V[mdp.s_of[s]])
     if kind == 'exact+half':
         return lambda s: float(V[mdp.s_of[s]]) + 0.5
+    if kind in ('exact_on_even', 'exact_on_odd'):
+        # exact on half of the states, the (optimistic) bound on the others
+        par = 0 if kind == 'exact_on_even' else 1
+        c = float(max(F(0), spec.max_reward()) / (1 - g)) if g < 1 else 0.0
+        return lambda s: float(V[mdp.s_of[s]]) if mdp.s_of[s] % 2 == par else c
     return lambda s: float(V[mdp.s_of[s]]) + (0.5 if mdp.s_of[s] in A else 0.0)
 
 
@@ -90,6 +96,8 @@ def check(item, tier):
         mdp = build.SpecMDP(spec, SLAB[li], ALAB[li])
         sl = mdp.sl
         init_support = [s for s, p in spec.init.items() if p > 0]
+        sibling = build.SpecMDP(Spec(spec_item[:3] + (tuple(sorted(set(spec_item[3]) | {max(spec.n - 2, 0)})),) + spec_item[4:]),
+                                SLAB[li], ALAB[li])
         for hk in HEUR:
             h = make_heuristic(hk, spec, V, mdp)
             for margin in MARGINS:
@@ -108,10 +116,16 @@ def check(item, tier):
                                 lviol.append(('value_below_optimum_during_search', {'s': mdp.s_of[ls], 'value': float(v),
                                                                                     'Vstar': V[mdp.s_of[ls]]}))
 
+                reuse = (HEUR.index(hk) + int(rao)) % 2 == 0 and spec.n >= 3
+
                 def body(rng, seed=0):
+                    planner = LRTDP(heuristic=h, bellman_error_margin=margin, iterations=300, randomize_action_order=rao,
+                                    event_listener_class=Listener, seed=seed)
+                    if reuse:
+                        # planner objects are reusable: first plan a sibling problem in which state n-2 is absorbing as well
+                        planner.plan_on(sibling)
                     del lviol[:]
-                    return LRTDP(heuristic=h, bellman_error_margin=margin, iterations=300, randomize_action_order=rao,
-                                 event_listener_class=Listener, seed=seed).plan_on(mdp)
+                    return planner.plan_on(mdp)
 
                 def judge(res, sched):
                     c = dict(ctx, schedule=sched)
